@@ -9,7 +9,8 @@ import (
 	"golang.org/x/tools/go/ssa"
 )
 
-var niaLengthsQuick = []int{0, 1, 7, 8, 9, 63, 64, 65, 128}
+// every residue modulo 8 of the bit length, every octet count modulo 8 of the last 64-bit block, the 32/64-bit borders
+var niaLengthsQuick = []int{0, 1, 2, 3, 4, 5, 6, 7, 8, 9, 15, 16, 17, 24, 31, 32, 33, 40, 41, 47, 48, 56, 57, 63, 64, 65, 72, 104, 128}
 
 func niaLengths(tier string) []int {
 	if tier != "thorough" {
